@@ -47,8 +47,10 @@ Cd_q == {R(-3, 10)}
 Cd_t == {R(-3, 10), R(0, 1), R(-1, 5)}
 I0_q == {R(1, 1)}
 I0_t == {R(1, 1), R(1, 4)}
-LawPts_q == LimPts(I_q, I0_q, Z_w, A_q) \cup ExtPts(I_q, I0_q, {-3, 1, 2}, A_q, B_q, Sz_q, Cx_q)
-                \cup DavPts(I_q, I0_q, {-2, 1, 4}, A_q, Cd_q)
+LawPts_q == LimPts(I_q, I0_q, Z_w, A_q) \cup ExtPts(I_q, I0_q, {-3, 0, 1, 2}, A_q, B_q, Sz_q, Cx_q)
+                \cup DavPts(I_q, I0_q, {-2, 0, 1, 4}, A_q, Cd_q \cup {R(0, 1)})
+                \cup ExtPts({R(1, 100), R(2, 5)}, {R(1, 4)}, {-2, 0, 1}, {R(1, 2)}, B_q, {R(2, 5)}, Cx_q)
+                \cup LimPts({R(1, 100)}, {R(1, 4)}, {-1, 2}, {R(1, 2)})
 (* A / B over T 250..650 K, eps_r 5..100, rho 500..1500 kg/m3 *)
 ABPts(Ts, Es, Rs) == { [PBase EXCEPT !.kind = k, !.T = t, !.eps = e, !.rho = r] :
                         k \in {"A", "B"}, t \in Ts, e \in Es, r \in Rs }
@@ -64,12 +66,16 @@ Salts == { [nus |-> <<Q(1), Q(1)>>, zs |-> <<Q(1), Q(-1)>>, pm |-> <<400, 300>>]
            [nus |-> <<Q(1), Q(2)>>, zs |-> <<Q(2), Q(-1)>>, pm |-> <<800, 300>>],
            [nus |-> <<Q(2), Q(3)>>, zs |-> <<Q(3), Q(-2)>>, pm |-> <<900, 400>>],
            [nus |-> <<Q(1), Q(1), Q(-1)>>, zs |-> <<Q(1), Q(-2), Q(-1)>>, pm |-> <<900, 400, 450>>],
-           [nus |-> <<Q(1), Q(4)>>, zs |-> <<Q(4), Q(-1)>>, pm |-> <<1100, 300>>] }
+           [nus |-> <<Q(1), Q(4)>>, zs |-> <<Q(4), Q(-1)>>, pm |-> <<1100, 300>>],
+           \* uncharged participants (H+ + A- -> HA;  a salt with a neutral co-solute)
+           [nus |-> <<Q(-1), Q(-1), Q(1)>>, zs |-> <<Q(1), Q(-1), Q(0)>>, pm |-> <<900, 400, 300>>],
+           [nus |-> <<Q(1), Q(2), Q(3)>>, zs |-> <<Q(2), Q(-1), Q(0)>>, pm |-> <<800, 300, 250>>] }
 ProdPts(Ks, Is, Ts, Es, Rs, Cs) ==
-    { [PBase EXCEPT !.kind = k, !.IS = i, !.T = t, !.eps = e, !.rho = r, !.C = IF k = "dap" THEN R(-3, 10) ELSE c,
+    { [PBase EXCEPT !.kind = k, !.IS = i, !.T = t, !.eps = e, !.rho = r,
+                    !.C = IF k = "dap" THEN R(-3, 10) ELSE IF k = "lap" THEN QZero ELSE c,
                     !.nus = s.nus, !.zs = s.zs, !.pm = s.pm] :
         k \in Ks, i \in Is, t \in Ts, e \in Es, r \in Rs, c \in Cs, s \in Salts }
 ProdPts_q == ProdPts({"lap", "eap", "dap"}, {R(0, 1), R(1, 100), R(1, 10)}, {R(5963, 20)}, {R(392, 5)},
-                     {R(997, 1)}, {R(0, 1)})
+                     {R(997, 1)}, {R(0, 1), R(1, 10)})
 DHPts_q == LawPts_q \cup ABPts_q \cup ProdPts_q
 =============================================================================
